@@ -43,10 +43,11 @@ type State struct {
 	base  string // suffix for heaps not in the map
 	reach string // Bool term: this point is reached and all assumptions so far hold
 	alloc string // Int term: allocation counter
+	ver   int    // heap version: states with equal ver have identical heaps
 }
 
 func (st *State) clone() *State {
-	n := &State{heap: make(map[string]string, len(st.heap)), base: st.base, reach: st.reach, alloc: st.alloc}
+	n := &State{heap: make(map[string]string, len(st.heap)), base: st.base, reach: st.reach, alloc: st.alloc, ver: st.ver}
 	for k, v := range st.heap {
 		n.heap[k] = v
 	}
@@ -111,6 +112,8 @@ func (fc *fnCtx) setH(st *State, name, term string) {
 	sym := fc.sc.Fresh(trimBars(name))
 	fc.sc.Def(sym, fc.heapSort[name], term)
 	st.heap[name] = sym
+	fc.verCounter++
+	st.ver = fc.verCounter
 }
 
 // havocAll forgets everything about the heap.
@@ -118,12 +121,16 @@ func (fc *fnCtx) havocAll(st *State) {
 	st.heap = map[string]string{}
 	fc.epoch++
 	st.base = fmt.Sprint(fc.epoch)
+	fc.verCounter++
+	st.ver = fc.verCounter
 }
 
 func (fc *fnCtx) havocHeap(st *State, name string) {
 	sym := fc.sc.Fresh(trimBars(name))
 	fc.sc.Decl(sym, nil, fc.heapSort[name])
 	st.heap[name] = sym
+	fc.verCounter++
+	st.ver = fc.verCounter
 }
 
 // loads and stores --------------------------------------------------------------
